@@ -310,41 +310,30 @@ func ruleBackground304SelectsEntry(c *Ctx, rule string) {
 			isValidatorGet := func(cc *ssa.Call) bool {
 				return isHeaderGetOf(cc, "Etag") || isHeaderGetOf(cc, "Last-Modified") || isHeaderGetOf(cc, "If-None-Match") || isHeaderGetOf(cc, "If-Modified-Since")
 			}
-			// raw: the operand is a field value as it was read (or a value handed in), not something computed from one
-			var raw func(v ssa.Value, d int) bool
-			raw = func(v ssa.Value, d int) bool {
-				if d > 4 {
+			// raw: the operand is a field value as it was read (directly, through a local, a struct member or a helper
+			// that hands it on), not something computed from one: every root of its value-preserving trace is a
+			// Header.Get of a validator field, a parameter or a constant
+			raw := func(v ssa.Value, _ int) bool {
+				roots := c.P.Roots(v, TraceOpts{NoHeapFields: true, NoParams: true})
+				if len(roots) == 0 {
 					return false
 				}
-				switch y := peel(v).(type) {
-				case *ssa.Call:
-					return isValidatorGet(y)
-				case *ssa.Parameter:
-					return true
-				case *ssa.Phi:
-					for _, e := range y.Edges {
-						if !raw(e, d+1) {
+				for _, r := range roots {
+					switch y := r.(type) {
+					case *ssa.Call:
+						if !isValidatorGet(y) {
 							return false
 						}
-					}
-					return true
-				case *ssa.UnOp:
-					if y.Op != token.MUL {
+					case *ssa.Parameter, *ssa.Const:
+					case *ssa.UnOp:
+						if _, local := y.X.(*ssa.Alloc); !local {
+							return false // (the load of a struct literal the value travels in is not a root of its own)
+						}
+					default:
 						return false
 					}
-					switch a := y.X.(type) {
-					case *ssa.Alloc:
-						for _, st := range c.P.cellStores(a) {
-							if !raw(st.Val, d+1) {
-								return false
-							}
-						}
-						return true
-					case *ssa.FreeVar:
-						return true
-					}
 				}
-				return false
+				return true
 			}
 			stored := func(cc *ssa.Call) bool { return isHeaderGetOf(cc, "Etag") || isHeaderGetOf(cc, "Last-Modified") }
 			if _, isConst := bo.X.(*ssa.Const); isConst {
